@@ -2,6 +2,6 @@
    skip filter over the generic differ.  ExtrOcamlBasic only; nat, positive, N stay inductive. *)
 Require Extraction.
 Require Import ExtrOcamlBasic.
-From Atlas Require Import Base.Bytes Diff.Schema Diff.DiffModel Diff.DiffSqlite Excl.Glob Excl.Exclude Excl.Skip Excl.Options.
+From Atlas Require Import Base.Bytes Diff.Schema Diff.DiffModel Diff.DiffSqlite Excl.Glob Excl.Exclude Excl.Skip Excl.Options Excl.Consumers Excl.ExcludeX.
 Extraction Language OCaml.
-Extraction "model.ml" Match ExcludeRealm ExcludeSchema sqlite_schema_diff skip_of remove_kinds no_skip sqlite_diff_sequence kinds_of.
+Extraction "model.ml" Match ExcludeRealm ExcludeSchema sqlite_schema_diff skip_of remove_kinds no_skip sqlite_diff_sequence kinds_of command_diff effective ExcludeRealmX ExcludeSchemaX.
